@@ -1,2 +1,16 @@
-From Tramp Require Import Model.Base Model.Sys Props.C01.
-Print Assumptions C01_placeholder.
+From Tramp Require Import Model.Base Model.Fee Model.Classify Model.Node Model.Provider Model.Sys.
+From Tramp Require Import Proofs.SysPreimage Proofs.SysReach Check.SysCheck Props.C01.
+Check C01_key : forall (good : list N -> Prop) c n t0 h0 a0 evs,
+  node_good good n -> Forall (ev_good good) evs ->
+  forall h p, In (OResp h (Resolve p)) (all_outs c (sys_start n t0 h0 a0) evs) -> good p.
+Check C01_key_hashes_to_own_hash : forall (sha : list N -> list N) (H : list N) c n t0 h0 a0 evs,
+  node_good (fun p => sha p = H) n -> Forall (ev_good (fun p => sha p = H)) evs ->
+  forall h p, In (OResp h (Resolve p)) (all_outs c (sys_start n t0 h0 a0) evs) -> sha p = H.
+Check C01_key_comes_from_completed_payment : forall c n t0 h0 a0 evs h p,
+  In (OResp h (Resolve p)) (all_outs c (sys_start n t0 h0 a0) evs) -> In p (env_keys n evs).
+Check C01_own_hash : forall (w : world) (rq : request) (h : nat) (t : tramp_info),
+  gclassify w rq = KTramp h t -> hash_index w (r_hash rq) = Some h /\ ti_hash t = r_hash rq.
+Print Assumptions C01_key.
+Print Assumptions C01_key_hashes_to_own_hash.
+Print Assumptions C01_key_comes_from_completed_payment.
+Print Assumptions C01_own_hash.
